@@ -162,7 +162,7 @@ Proof.
     + (* the column built by the code is the column of the specification *)
       f_equal. destruct a as [an aty anl adf]; cbn in *. destruct c as [cn cty cnl cdf]; cbn.
       destruct an as [n|]; cbn.
-      * rewrite Hc. cbn. destruct aty, anl, adf; reflexivity.
+      * destruct (name_eqb n cn) eqn:En; cbn; [apply name_eqb_eq in En; subst n|]; destruct aty, anl, adf; reflexivity.
       * destruct aty, anl, adf; reflexivity.
     + rewrite !akeys_aset; auto.
     + apply aset_Forall; auto. intros k' E. apply name_eqb_eq in E. subst k'.
@@ -173,7 +173,7 @@ Proof.
         - inversion Gt; subst. apply name_eqb_eq in E. subst. destruct (Isrc (k1, t)) as [cs H]; simpl; auto. exists cs; auto.
         - apply IH; auto; intros x Hx; apply Isrc; simpl; auto. }
       destruct Hin as [cs Hcs]. unfold own_source. cbn.
-      destruct a as [an aty anl adf]; cbn in Hc |- *. destruct an as [n|]; cbn in Hc |- *; rewrite ?Hc; cbn;
+      destruct a as [an aty anl adf]; cbn. destruct an as [n|]; cbn; try (destruct (negb (name_eqb n (c_name c)))); cbn;
         destruct aty as [nt|]; cbn; try (destruct (N.eqb _ _)); cbn; rewrite ?Hcs; eauto.
     + rewrite akeys_aset; auto.
     + rewrite akeys_aset, Icols; auto.
@@ -379,10 +379,4 @@ Proof.
   unfold describe; cbn [n_pk]. rewrite (B0 Hpk). apply map_ext_in. intros k Hk. unfold cur_name. rewrite B1; auto.
 Qed.
 
-(* rename a -> a2, then rename 'a' back to 'a': accepted, and the second rename is ignored *)
-Definition w_ops_back := [OAlterColumn w_a (mkAlter (Some w_a2) None None None); OAlterColumn w_a (mkAlter (Some w_a) None None None)].
-Theorem rename_back_refuted : exists i, (exists nd r, model10 i = OutOk nd r false) /\ check_C10 i (model10 i) = false /\ ~ C10_holds i (model10 i).
-Proof.
-  exists (w_in w_ops_back). split; [eexists; eexists; vm_compute; reflexivity|]. split; [vm_compute; reflexivity|].
-  intros H. vm_compute in H. destruct H as [_ [_ [H _]]]. discriminate.
-Qed.
+
